@@ -139,6 +139,9 @@ impl Scheduler for SimScheduler {
             Site::Unresolved => &self.spec.unresolved,
             Site::ModuleWrite => &self.spec.module_write,
             Site::Definitions => &self.spec.definitions,
+            // These two only decide the text of an error message.
+            Site::Resolved => &OrderSpec::Canonical,
+            Site::ExternValues => &self.spec.module_write,
         };
         let order = spec.order(keys);
         let exceeded = {
@@ -190,7 +193,7 @@ impl Scheduler for SimScheduler {
                     }
                     false
                 }
-                Site::Definitions => false,
+                Site::Definitions | Site::Resolved | Site::ExternValues => false,
             }
         };
         if exceeded {
